@@ -57,3 +57,33 @@ Proof. intros H. rewrite <- write_canon. apply roundtrip_multi. exact H. Qed.
 Theorem roundtrip_single_any_order o v :
   wf_single o (canon v) = true -> load (write o v) = Ok (erase o (canon v)).
 Proof. intros H. rewrite <- write_canon. apply roundtrip_single. exact H. Qed.
+
+(* ------------------------------------------------------------------ whatever layout the options lead to *)
+Theorem roundtrip_auto o v : wf_auto o v = true -> load (write o v) = Ok (erase o v).
+Proof.
+  unfold wf_auto, wf_view. intros H. apply andb_true_iff in H as [H Hfmt].
+  apply andb_true_iff in H as [H Hs]. apply andb_true_iff in H as [H Ha]. apply andb_true_iff in H as [Ho Hp].
+  destruct (o_multi o) eqn:Hm.
+  - apply roundtrip_multi. unfold wf_multi. rewrite Hm, Ho, Hp, Ha, Hs. reflexivity.
+  - cbn [orb] in Hfmt. apply roundtrip_single. unfold wf_single. rewrite Hm, Ho, Hp, Ha, Hs, Hfmt. reflexivity.
+Qed.
+
+(* the format left to the tool (multiline = None) *)
+Lemma default_format_multi o :
+  o_format o = None -> o_hashes o || o_urls o = true -> o_multi o = true.
+Proof. intros Hf Hhu. unfold o_multi. rewrite Hf, default_multi_rule. exact Hhu. Qed.
+
+Theorem roundtrip_default_format o v :
+  o_format o = None -> o_hashes o || o_urls o = true -> wf_view o v = true ->
+  load (write o v) = Ok (erase o v).
+Proof.
+  intros Hf Hhu Hv. apply roundtrip_auto. unfold wf_auto. rewrite Hv, (default_format_multi o Hf Hhu). reflexivity.
+Qed.
+
+Theorem roundtrip_default_format_plain o v :
+  o_format o = None -> o_hashes o = false -> o_urls o = false ->
+  wf_view o v = true -> forallb (single_pin_ok o) v = true ->
+  load (write o v) = Ok (erase o v).
+Proof.
+  intros Hf Hh Hu Hv Hs. apply roundtrip_auto. unfold wf_auto. rewrite Hv, Hs. rewrite orb_true_r. reflexivity.
+Qed.
